@@ -258,6 +258,19 @@ def junk(rng, n):
     for i, t in enumerate(fixed):
         if t is not None:
             out.append(('fixed%d' % i, t))
+    # delimiters that are special inside a regular-expression character class or a format string, in every role
+    k = 0
+    for chars in ('^|~\\&', '|^~\\-', '|-~\\&', '|^-\\&', ']^~\\&', '|]~\\[', '|^~\\]', '|[~\\&', '|^~\\^'[:5], '{}~\\&'[:1] + '}~\\&',
+                  '|%~\\&', '|^~\\$', '|^~\\*', '|^~\\+', '|(~\\)', '|^~\\?', '.^~\\&'[:0] + '|^~\\.'):
+        if len(set(chars)) != 5:
+            continue
+        f, c, r, e, sc = chars
+        for v in ('2.4', '2.5', '2.7'):
+            msh2 = c + r + e + sc
+            line = f.join(['MSH', msh2, 'A B', 'F' + c + 'x' + sc + 'y', 'C', 'D', '20200101', '', 'ADT' + c + 'A01' + c + 'ADT_A01', '1', 'P', v])
+            body = f.join(['PID', '1', '', 'id' + c + c + c + 'a' + sc + 'b', '', 'Doe' + c + 'John' + r + 'Roe' + c + 'Jane', '', '', 'M'])
+            out.append(('delims%d' % k, line + '\r' + f.join(['EVN', 'A01', '20200101']) + '\r' + body + '\r' + f.join(['PV1', '1', 'I'])))
+            k += 1
     # numeric leaves whose text Decimal() takes although it is no number, or a number of enormous magnitude
     k = 0
     for v in ('2.3', '2.5', '2.7'):
